@@ -3,7 +3,6 @@
 package mon
 
 import (
-	"context"
 	"encoding/binary"
 	"encoding/json"
 	"fmt"
@@ -171,8 +170,30 @@ func RunShards(p *Prop, pc *ParentCtx, extraEnv []string) *Aggregate {
 		o := outs[idx]
 		i := o.shard
 
+		if o.stall.Deadlock != "" {
+			// which case? run the shard again, recording each case before it runs (it will stall again)
+			last := pc.Scratch + fmt.Sprintf("/shard.%d.last", i)
+			o2 := runChildParanoid(p, pc, i, extraEnv, last)
+			lastCase, _ := os.ReadFile(last)
+
+			var cs any
+
+			_ = json.Unmarshal(lastCase, &cs)
+
+			what := "a monitored call never returns: " + o.stall.Deadlock
+			if o2.stall.Deadlock == "" {
+				what += " (not reproduced when the shard was run again: the hang depends on the schedule)"
+				cs = nil
+			}
+
+			agg.ViolCount++
+			agg.Violations = append(agg.Violations, Violation{Property: p.ID, What: what, Key: "deadlock", Case: cs, More: map[string]any{"goroutine_dump": o.stall.Dump}})
+
+			continue
+		}
+
 		if o.timed {
-			agg.Incon("shard %d: watchdog fired after %s (log %s)", i, watchdog(pc.Tier), o.log)
+			agg.Incon("shard %d: idle or over the wall-clock limit (%s) and the goroutine dump does not show a deadlock (log %s)", i, watchdog(pc.Tier), o.log)
 			continue
 		}
 
@@ -200,11 +221,16 @@ func RunShards(p *Prop, pc *ParentCtx, extraEnv []string) *Aggregate {
 				continue
 			}
 
+			what, key := "child process died while running a monitored call (process-fatal error)", "process-fatal"
+			if strings.Contains(string(logTxt), "all goroutines are asleep - deadlock!") {
+				what, key = "a monitored call never returns (Go runtime: all goroutines are asleep - deadlock!)", "deadlock"
+			}
+
 			agg.ViolCount++
 			agg.Violations = append(agg.Violations, Violation{
 				Property: p.ID,
-				What:     "child process died while running a monitored call (process-fatal error)",
-				Key:      "process-fatal",
+				What:     what,
+				Key:      key,
 				Case:     cs,
 				More:     map[string]any{"exit": fmt.Sprint(o.err), "log_head": firstLines(string(logTxt), 60)},
 			})
@@ -251,6 +277,7 @@ type childOutcome struct {
 	shard int
 	err   error
 	timed bool
+	stall Stall
 	out   string
 	log   string
 }
@@ -263,11 +290,8 @@ func runChildEnv(p *Prop, pc *ParentCtx, i int, extraEnv []string, suffix string
 	out := filepath.Join(pc.Scratch, fmt.Sprintf("shard.%d%s.json", i, suffix))
 	logp := filepath.Join(pc.Scratch, fmt.Sprintf("shard.%d%s.log", i, suffix))
 
-	ctx, cancel := context.WithTimeout(context.Background(), watchdog(pc.Tier))
-	defer cancel()
-
-	cmd := exec.CommandContext(ctx, pc.Exe, "shard", p.ID, pc.Tier, strconv.FormatUint(pc.Seed, 10), strconv.Itoa(i), out)
-	cmd.Env = append(append(os.Environ(), pc.Env...), extraEnv...)
+	cmd := exec.Command(pc.Exe, "shard", p.ID, pc.Tier, strconv.FormatUint(pc.Seed, 10), strconv.Itoa(i), out)
+	cmd.Env = append(append(append(os.Environ(), "GOTRACEBACK=all"), pc.Env...), extraEnv...)
 
 	lf, err := os.Create(logp)
 	if err != nil {
@@ -276,10 +300,20 @@ func runChildEnv(p *Prop, pc *ParentCtx, i int, extraEnv []string, suffix string
 	defer lf.Close()
 
 	cmd.Stdout, cmd.Stderr = lf, lf
-	err = cmd.Run()
 
-	return childOutcome{shard: i, err: err, timed: ctx.Err() == context.DeadlineExceeded, out: out, log: logp}
+	if err = cmd.Start(); err != nil {
+		return childOutcome{shard: i, err: err, out: out, log: logp}
+	}
+
+	// a shard is CPU-bound from start to finish: see watch.go for how a hang is told from slowness
+	err, stall := WaitWatched(cmd, logp, stallAfter, watchdog(pc.Tier))
+
+	return childOutcome{shard: i, err: err, timed: stall.Stalled && stall.Deadlock == "", stall: stall, out: out, log: logp}
 }
+
+// stallAfter: how long a child must have been completely idle (no runnable thread, no CPU time used) before it is asked
+// for its goroutine dump.
+const stallAfter = 25 * time.Second
 
 // countDistinct merges the sorted fingerprint files of all shards and counts distinct values exactly.
 func countDistinct(files []string) int64 {
